@@ -14,7 +14,7 @@ FEATS = {"join", "outer", "semi", "agg", "distinct", "union", "limit", "case", "
 def run(ck, tier, runner):
     rng = Rng(ck.seed * 1009 + 1)
     sd = SemDiff(ck, runner, "sem_default")
-    ndb = 25 if tier == "quick" else 1500
+    ndb = 100 if tier == "quick" else 3000
     per_db = 8
     for d in range(ndb):
         big = d % 12 == 11
@@ -23,6 +23,8 @@ def run(ck, tier, runner):
         queries, keys = [], []
         for _ in range(per_db if not big else 3):
             q, ty = g.query(rng.pick([1, 2, 3, 3, 4]) if not big else rng.pick([1, 2]))
+            if qgen.has_or_absorption(q):
+                continue
             if rng.chance(1, 3) and ty:
                 q, ks = qgen.top_sort(rng, q, ty)
                 keys.append([(k, k[0][1]) for k in ks])
